@@ -9,7 +9,8 @@ THEOREMS = ["C16_flush", "C16_consumable", "C16_header", "C16_model_header", "C1
             "C16_intersect_rows_b", "C16_intersect_yields", "C16_eager_nest_spec", "C16_eager_nest",
             "C16_model_meets_spec_partial",
             "C16_pop_stamp_discipline", "C16_pop_loop_facts", "C16_pop_level_core",
-            "C16_retry_endcollect", "C16_nest_spec", "C16_nest", "C16_model_meets_spec_populate"]
+            "C16_retry_endcollect", "C16_nest_spec", "C16_nest", "C16_model_meets_spec_populate",
+            "C16_populate_position", "C16_populate_dest_rows"]
 COQ_IMPORTS = "From FT Require Import Model.Base Model.Obs Model.C16Metrics Model.C16Nest Model.C16Check."
 CHECK_VO = ["Model/C16Check.v"]
 CHECKER = "c16_checker"
@@ -95,6 +96,24 @@ def gen_case(rng, depth=None, canon=None):
     if nz:
         z = U.gen_fiber(rng, nz, zshape, 0, p_absent=rng.choice([0.3, 0.6, 0.9, 1.0]),
                         p_zero=rng.choice([0.0, 0.0, 0.3]), p_emptysub=rng.choice([0.0, 0.0, 0.3]))
+    flat = None
+    # (only `for` levels over one operand: with an EMPTY second operand `x & y` takes the mixed-arity
+    #  path and its internal project() asserts a rank_id while metrics are collected)
+    cand_flat = [i for i, l in enumerate(levels) if not l[0] and not l[2] and l[4] is None and l[1][0] == "F"]
+    if cand_flat and rng.random() < 0.15:
+        # a flattened rank: tuple coordinates (a, b, c) within dims, logged by Metrics as their
+        # row-major linearisation (Metrics.associateShape); the case carries the linearised values
+        lvl = rng.choice(cand_flat)
+        dims = rng.choice(FLAT_DIMS)
+        tuples = set()
+        while len(tuples) < shapes[lvl]:
+            tuples.add(tuple(rng.randrange(d) for d in dims))
+        lins = sorted(_lin(t, dims) for t in tuples)
+        inputs = [_remap(t, lvl, lins) for t in inputs]
+        prod = dims[0] * dims[1] * dims[2]
+        shapes[lvl] = prod
+        levels[lvl][5] = prod
+        flat = [lvl, list(dims)]
     keys = []
     for i, (pop, s, _u, _zu, proj, _sh) in enumerate(levels):
         base = 2 if pop else 0
@@ -116,8 +135,31 @@ def gen_case(rng, depth=None, canon=None):
     rng.shuffle(keys)
     ths = sorted(rng.sample([2, 3, 4, 7, 1000], rng.choice([2, 3])))
     rng.shuffle(ths)
-    return {"levels": levels, "inputs": inputs, "z": z, "zshape": zshape, "shapes": shapes,
+    ref = rng.random() < 0.25 and not levels[-1][2] and levels[-1][4] is None
+    return {"ref": ref, "flat": flat, "levels": levels, "inputs": inputs, "z": z, "zshape": zshape, "shapes": shapes,
             "skip": rng.choice([0, 0, 2, 3]), "keys": keys, "thresholds": ths}
+
+
+FLAT_DIMS = [(3, 4, 5), (8, 2 ** 31 - 1, 2 ** 31 - 1), (16, 10 ** 9 + 7, 10 ** 9 + 9)]
+
+
+def _lin(t, dims):
+    return (t[0] * dims[1] + t[1]) * dims[2] + t[2]
+
+
+def _unlin(v, dims):
+    c = v % dims[2]
+    v //= dims[2]
+    return (v // dims[1], v % dims[1], c)
+
+
+def _remap(t, lvl, lins):
+    """replace the coordinates at depth lvl by lins[coordinate]"""
+    if isinstance(t, int):
+        return t
+    if lvl == 0:
+        return [[lins[c], s] for c, s in t]
+    return [[c, _remap(s, lvl - 1, lins)] for c, s in t]
 
 
 def prune(t):
@@ -155,6 +197,8 @@ def describe(case):
             "input_rank_U": any(l[2] for l in case["levels"]),
             "dest_rank_U": any(l[3] for l in case["levels"]),
             "projection_level": any(l[4] is not None for l in case["levels"]),
+            "flattened_rank": case.get("flat") is not None,
+            "body_getPayloadRef": bool(case.get("ref")),
             "empty_elements_in_inputs": any(has_empty(t) for t in case["inputs"]),
             "z_prepopulated": bool(case["z"]),
             "n_keys": len(case["keys"])}
@@ -166,9 +210,9 @@ def case_to_coq(c):
     lv = L.lst("(Build_level %s %s %s %s %s %s)" % (L.b(p), src(s), L.b(u), L.b(zu), L.opt(pj, L.z), L.z(sh))
                for p, s, u, zu, pj, sh in c["levels"])
     keys = L.lst("(%s, %s, %s)" % (L.z(a), L.z(b_), L.z(d)) for a, b_, d in c["keys"])
-    return "(Build_c16_case %s %s %s %s %s %s %s)" % (
+    return "(Build_c16_case %s %s %s %s %s %s %s %s)" % (
         lv, L.lst(L.tree(t) for t in c["inputs"]), L.tree(c["z"]), L.zlist(c["zshape"]),
-        L.z(c["skip"]), keys, L.zlist(c["thresholds"]))
+        L.z(c["skip"]), keys, L.zlist(c["thresholds"]), L.b(c.get("ref", False)))
 
 
 # ------------------------------------------------------------------ implementation driver
@@ -219,6 +263,19 @@ def _one_run(case, n, consumable, tmpdir, tag, retry=False):
     Z = None
     if nz:
         Z = U.build_tensor(case["z"], nz, case["zshape"], 0, rank_ids=RANKS[:nz], name="Z")
+    flat = case.get("flat")
+    if flat:
+        def _tuples(f, depth):
+            if depth == 0:
+                f.coords[:] = [_unlin(c, flat[1]) for c in f.coords]
+            else:
+                for p in f.payloads:
+                    _tuples(p, depth - 1)
+        for T in ins:
+            _tuples(T.getRoot(), flat[0])
+
+    def lin(c):
+        return _lin(c, flat[1]) if isinstance(c, tuple) else c
     for i, l in enumerate(levels):
         if l[2]:
             for T in ins:
@@ -240,12 +297,18 @@ def _one_run(case, n, consumable, tmpdir, tag, retry=False):
                 nest(i + 1, _bind(env, s, p), zr, point + [c])
             return
         fib = env[s[1]] if s[0] == "F" else env[s[1]] & env[s[2]]
+        # innermost body: an untraced reference lookup of the element just reached
+        do_ref = case.get("ref") and i == D - 1 and not _u
         if pop:
             for c, (zr, p) in z << fib:
+                if do_ref:
+                    env[s[1]].getPayloadRef(c)
                 nest(i + 1, _bind(env, s, p), zr, point + [c])
         else:
             for c, p in fib:
-                nest(i + 1, _bind(env, s, p), z, point + [c])
+                if do_ref:
+                    env[s[1]].getPayloadRef(c)
+                nest(i + 1, _bind(env, s, p), z, point + [lin(c)])
 
     def _bind(env, s, p):
         e = list(env)
@@ -261,6 +324,8 @@ def _one_run(case, n, consumable, tmpdir, tag, retry=False):
     Metrics.setNumCachedUses(n)
     Metrics.beginCollect(prefix)
     try:
+        if flat:
+            Metrics.associateShape(ids[flat[0]], tuple(flat[1]))
         for r, kind, label in case["keys"]:
             Metrics.trace(rank_name(r), type_name(kind, label))
             if consumable:
